@@ -67,6 +67,7 @@ func runC01(e *core.Env) {
 		desc.Size = 0
 	}
 	useLayout := e.Choose("gen", 4, "scheme") == 3
+	overlong := false // the source of the end of the stream visibly carries more bytes than the descriptor states
 	faultFree := e.Choose("gen", 5, "faultfree") == 4
 	var plan []string
 	var rdr io.ReadSeekCloser
@@ -102,6 +103,7 @@ func runC01(e *core.Env) {
 			case 3:
 				stored = append(stored, make([]byte, 1+e.Choose("disk", 16, "extra"))...)
 				corr = "extend"
+				overlong = true
 			case 4:
 				for i := range stored {
 					stored[i] = ^stored[i]
@@ -198,6 +200,7 @@ func runC01(e *core.Env) {
 			}
 			body := append([]byte(nil), r.Body...)
 			isRange := r.Status == 206
+			overlong = false // (the end of the stream now comes from this response)
 			switch b {
 			case "flip":
 				if len(body) > 0 {
@@ -207,6 +210,7 @@ func runC01(e *core.Env) {
 			case "extra-cl-true":
 				body = append(body, make([]byte, 1+e.Choose("net", 8, "extra"))...)
 				r.Header.Set("Content-Length", strconv.Itoa(len(body)))
+				overlong = true
 			case "extra-cl-lie":
 				orig := len(body)
 				body = append(body, make([]byte, 1+e.Choose("net", 8, "extra"))...)
@@ -354,6 +358,11 @@ func runC01(e *core.Env) {
 			e.Violation("integrity", "clean-read-wrong-digest", "read ended with a bare io.EOF after %d bytes hashing to %s, descriptor digest %s (plan %v, mode %v)", len(delivered), short(got), short(dig), plan, sample["read_mode"])
 		} else if sizeKnown && len(delivered) != n {
 			e.Violation("integrity", "clean-read-wrong-size", "read ended cleanly with %d bytes, descriptor size %d", len(delivered), n)
+		}
+		// an over-long stream ends in an error: the response (or stored file) the end of the stream came from
+		// carried bytes beyond the stated size, visibly (its announced length included them)
+		if overlong && sizeKnown && n > 0 {
+			e.Violation("integrity", "over-long-stream-read-cleanly", "the stream carried bytes beyond the descriptor's size %d, yet the read ended with a bare io.EOF after %d bytes (plan %v, mode %v)", n, len(delivered), plan, sample["read_mode"])
 		}
 		if !faultFree {
 			e.Probe("clean-read-under-faults")
